@@ -41,6 +41,12 @@ def requests(tier, rng):
         xi = S.find_keygen_seed_eta_refill(S.P(s), 2, rng)
         if xi is not None:
             L.append("sign::%s::keypair %s -" % (s, xi.hex()))
+    # boundary-seeking: seeds for which a coefficient of t = A*s1 + s2 is within a few units of 0 or q (where the order of
+    # caddq / + s2 / Power2Round matters; about 1 seed in 2000), found by an independent numpy/hashlib computation
+    for s in SETS:
+        for xi in S.find_keygen_seeds_t_band(s, rng, budget=5000 if tier == "quick" else 40000, band=6, want=2 if tier == "quick" else 12):
+            L.append("sign::%s::keypair %s -" % (s, xi.hex()))
+            _band.add(xi.hex())
     for s in SETS:
         seeds = ["00" * 32, "ff" * 32] + [bytes(rng.randrange(256) for _ in range(32)).hex() for _ in range(n_rand)]
         for seed in seeds:
@@ -55,6 +61,10 @@ def requests(tier, rng):
         for bad in ("00" * 31, "00" * 33, "-"):
             L.append("sign::%s::keypair %s -" % (s, bad))
     return L
+
+
+_band = set()
+_oracle = {}
 
 
 def expected(line):
@@ -74,6 +84,15 @@ def violated(line, checked, release):
         if e is not None and ans != e:
             return "%s build: %s with seed %s is not the specification's key pair (known answer: pk ..%s, got ..%s)" % (
                 prof, t[0], t[1], e.split()[1][-16:], ans.split()[1][-16:] if ans.startswith("ok ") else ans)
+        if p[0] == "sign" and p[2] == "keypair" and t[2] == "-" and (t[1] in _band or (not _band and len(_oracle) < 8)):
+            # boundary seed: the public key is also computed independently (numpy/hashlib transcription of ExpandA/ExpandS/NTT/Power2Round)
+            from .. import pyspec as S
+            key = (p[1], t[1])
+            if key not in _oracle:
+                _oracle[key] = S.keygen_pk_oracle(p[1], bytes.fromhex(t[1]))
+            want = _oracle[key]
+            if want is not None and not (ans.startswith("ok ") and ans.split()[1] == want.hex()):
+                return "%s build: %s with seed %s (a coefficient of t = A*s1+s2 next to 0 or q) does not return the specification's public key" % (prof, t[0], t[1])
         if ans.startswith("ok ") and p[0] == "sign" and p[2] == "keypair":
             pk, sk = ans.split()[1:]
             if len(pk) // 2 != PK[p[1]] or len(sk) // 2 != SK[p[1]]:
